@@ -1,0 +1,34 @@
+//go:build verif
+
+// Package verifhook: step-boundary hooks for the runtime verification harness (build tag "verif").
+// Without a controller in the context both functions do nothing, so tagged builds of unrelated code behave normally.
+// Placement rule: never inside a critical section.
+package verifhook
+
+import "context"
+
+// Controller is implemented by the harness' scheduler.
+type Controller interface {
+	// Yield: a step boundary; the scheduler may park the caller here.
+	Yield(ctx context.Context, point string)
+	// Block: the caller is about to block on a real primitive (lock wait, channel receive).
+	Block(ctx context.Context, point string)
+}
+
+type ctxKey struct{}
+
+func WithController(ctx context.Context, c Controller) context.Context {
+	return context.WithValue(ctx, ctxKey{}, c)
+}
+
+func Yield(ctx context.Context, point string) {
+	if c, ok := ctx.Value(ctxKey{}).(Controller); ok {
+		c.Yield(ctx, point)
+	}
+}
+
+func Block(ctx context.Context, point string) {
+	if c, ok := ctx.Value(ctxKey{}).(Controller); ok {
+		c.Block(ctx, point)
+	}
+}
